@@ -10,7 +10,7 @@ from sa.index import AnalysisError, ClassInfo
 from sa.models import shape_str, strip_opt
 from sa.peval import Unknown, compile_term, peval, weak_orderings
 from sa.report import Ctx
-from sa.sym import FALSE, NONE, NOT, OR, Summary, conjuncts, show, subst, walk
+from sa.sym import callkw, FALSE, NONE, NOT, OR, Summary, conjuncts, show, subst, walk
 
 GEO = "soundevent.data.geometries"
 FILE = "src/soundevent/data/geometries.py"
@@ -558,7 +558,7 @@ class C03:
             ctx.undec("R03.4", site, f"{len(calls)} model_validate calls")
             return
         call = calls[0].term
-        kws = dict(call[3])
+        kws = callkw(call)
         MAP = ("global", f"{GEO}:GEOMETRY_MAPPING", "assign")
         for mval in ("json", "dict", "attributes"):
             env = {mode: mval}
